@@ -1,11 +1,21 @@
 (* C07 -- isoparse inverts every ISO-8601 rendering.
    Statements only; proofs are in iso/IsoThm*.v over the hand-written model iso/IsoModel.v
-   (tied to /repo/src/dateutil/parser/isoparser.py by harness/check_C07.py).
-   render_iso / render_date / render_time / render_off, wf_fmt, expected, trunc_* are the
-   specification of iso/IsoSpec.v (Part B). *)
+   (regenerated from /repo/src/dateutil/parser/isoparser.py, see the last section; tied to the running code by
+   harness/check_C07.py).  render_iso / render_date / render_time / render_off, wf_fmt, expected, trunc_* are
+   the specification of iso/IsoSpec.v (Part B); wf_fmt_text / fmt_ordinal_digit are in iso/IsoText.v.
+
+   THE RENDERINGS THE THEOREMS ARE ABOUT: [wf_fmt_text] = every date form x time form x fraction digits x any
+   single ASCII separator byte (or the configured one) x offset form (incl. lower-case z and negative zero, read
+   as UTC); date, time and offset notation (basic / extended) vary independently.  [wf_fmt] = [wf_fmt_text]
+   minus the renderings of the OPEN finding F-C07-ordinal-digit-sep (basic ordinal date YYYYDDD followed by a
+   DIGIT as separator, e.g. '2014123412': rejected with ValueError although it has exactly one well-formed
+   reading; only reachable with no configured separator, the constructor refuses digits).  The guard of
+   C07_isoparse_render_guarded is exactly the complement of that finding; C07_isoparse_render_refuted_ordinal_digit
+   is the witness inside it.  The hour-24 law is stated for an all-zero fraction only (extra digits 0): a non-zero
+   digit beyond microseconds after 24:00:00 is the C20 finding F-C20-2400-subus. *)
 From Coq Require Import ZArith List Bool.
 From V Require Import base.Cal iso.IsoBase iso.IsoModel iso.IsoSpec iso.IsoThm iso.IsoThmTz iso.IsoThmTime
-                      iso.IsoThmWeek iso.IsoThmMain iso.IsoThmRender.
+                      iso.IsoThmWeek iso.IsoThmMain iso.IsoThmRender iso.IsoText iso.IsoTextThm.
 Import ListNotations.
 Open Scope Z_scope.
 
@@ -60,6 +70,32 @@ Theorem C07_weekdate_inverse : forall y m d, valid_ymd y m d = true ->
 Proof. exact weekdate_inverse_lemma. Qed.
 Print Assumptions C07_weekdate_inverse.
 
+(* the inverse law over the renderings of the property text; guard = complement of F-C07-ordinal-digit-sep *)
+Theorem C07_isoparse_render_guarded : forall f sep o dt,
+  wf_fmt_text f sep o = true -> fmt_ordinal_digit f = false -> valid_dt dt = true ->
+  isoparse sep (render_iso f dt o) = Ok (expected f dt o).
+Proof. exact isoparse_render_guarded. Qed.
+Print Assumptions C07_isoparse_render_guarded.
+
+(* inside the guard the law fails: '2014123412' renders 2014-05-03T12 (ordinal basic, separator '4'), the text
+   grammar reads it back, isoparse raises ValueError *)
+Theorem C07_isoparse_render_refuted_ordinal_digit :
+  fmt_ordinal_digit w_ordigit_fmt = true /\ wf_fmt_text w_ordigit_fmt None ONone = true /\
+  valid_dt (2014, 5, 3, 12, 0, 0, 0) = true /\
+  render_iso w_ordigit_fmt (2014, 5, 3, 12, 0, 0, 0) ONone = w_ordigit /\
+  finding_ordinal_digit None w_ordigit = true /\
+  iso_text None w_ordigit = Some (expected w_ordigit_fmt (2014, 5, 3, 12, 0, 0, 0) ONone) /\
+  isoparse None w_ordigit = Err ValueError.
+Proof. exact isoparse_render_refuted_ordinal_digit. Qed.
+Print Assumptions C07_isoparse_render_refuted_ordinal_digit.
+
+(* offset-only entry point with zero_as_utc=False: same inverse law without the UTC normalisation
+   (+00:00 and -00:00 are tzoffset(None, 0)) *)
+Theorem C07_parse_tzstr_render_noutc : forall o,
+  o <> ONone -> wf_off o = true -> parse_tzstr (render_off o) false = Ok (tz_of_noutc o).
+Proof. exact parse_tzstr_render_noutc. Qed.
+Print Assumptions C07_parse_tzstr_render_noutc.
+
 (* non-vacuity: concrete formats / datetimes inside the guards, and what they render to *)
 Example C07_ex_wf :
   let f := mkFmt FWeekDayX (Some (TS TFracX true 8 [7; 8])) 84 in
@@ -97,28 +133,45 @@ Proof. vm_compute. repeat split; try reflexivity. discriminate. Qed.
    run; the translated functions are the hand model, so the inverse laws hold of the translated source. *)
 From V Require Import iso.IsoGenLib gen.IsoGen iso.IsoGenThm iso.IsoGenCor.
 
-Theorem C07_gen_isoparse : forall sep s, gen_isoparse (sep_bytes sep) s = isoparse sep s.
+Theorem C07_gen_isoparse : forall sep i, gen_isoparse (sep_bytes sep) i = isoparse sep (codes i).
 Proof. exact gen_isoparse_eq. Qed.
 Print Assumptions C07_gen_isoparse.
 
-Theorem C07_gen_entry_points : forall s z,
-  gen_parse_isodate s = parse_isodate s /\ gen_parse_isotime s = parse_isotime s /\
-  gen_parse_tzstr s z = parse_tzstr s z.
-Proof. exact (fun s z => conj (gen_parse_isodate_eq s) (conj (gen_parse_isotime_eq s) (gen_parse_tzstr_eq s z))). Qed.
+Theorem C07_gen_entry_points : forall i z,
+  gen_parse_isodate i = parse_isodate (codes i) /\ gen_parse_isotime i = parse_isotime (codes i) /\
+  gen_parse_tzstr i z = parse_tzstr (codes i) z.
+Proof. exact (fun i z => conj (gen_parse_isodate_eq i) (conj (gen_parse_isotime_eq i) (gen_parse_tzstr_eq i z))). Qed.
 Print Assumptions C07_gen_entry_points.
 
 Theorem C07_gen_calculate_weekdate : forall y w d, gen__calculate_weekdate y w d = calculate_weekdate y w d.
 Proof. exact gen_calculate_weekdate_eq. Qed.
 Print Assumptions C07_gen_calculate_weekdate.
 
+(* "str, bytes and stream inputs are equivalent": the decorator _takes_ascii is translated too
+   ([pyin]: InDirect / InStream of PText code points / PBytes byte values); whatever the kind, all four entry
+   points (any configured separator, any zero_as_utc flag) depend only on the characters [codes i] *)
+Theorem C07_gen_input_kinds_equiv : forall sep i j z, codes i = codes j ->
+  gen_isoparse sep i = gen_isoparse sep j /\ gen_parse_isodate i = gen_parse_isodate j /\
+  gen_parse_isotime i = gen_parse_isotime j /\ gen_parse_tzstr i z = gen_parse_tzstr j z.
+Proof. exact gen_input_kinds. Qed.
+Print Assumptions C07_gen_input_kinds_equiv.
+
+(* the four kinds over the same characters have the same [codes] (so the hypothesis above is met) *)
+Theorem C07_gen_input_kinds_codes : forall l,
+  codes (InDirect (PText l)) = l /\ codes (InDirect (PBytes l)) = l /\
+  codes (InStream (PText l)) = l /\ codes (InStream (PBytes l)) = l.
+Proof. exact codes_kinds. Qed.
+Print Assumptions C07_gen_input_kinds_codes.
+
 Theorem C07_gen_isoparse_render : forall f sep o dt,
   wf_fmt f sep o = true -> valid_dt dt = true ->
-  gen_isoparse (sep_bytes sep) (render_iso f dt o) = Ok (expected f dt o).
+  forall i, codes i = render_iso f dt o -> gen_isoparse (sep_bytes sep) i = Ok (expected f dt o).
 Proof. exact gen_isoparse_render. Qed.
 Print Assumptions C07_gen_isoparse_render.
 
 Theorem C07_gen_isoparse_2400 : forall f sep o y m d,
   wf_fmt_2400 f sep o = true -> valid_ymd y m d = true ->
-  gen_isoparse (sep_bytes sep) (render_iso_2400 f (y, m, d) o) = lift (expected_2400 (y, m, d) o).
+  forall i, codes i = render_iso_2400 f (y, m, d) o ->
+  gen_isoparse (sep_bytes sep) i = lift (expected_2400 (y, m, d) o).
 Proof. exact gen_isoparse_2400. Qed.
 Print Assumptions C07_gen_isoparse_2400.
